@@ -100,7 +100,9 @@ def _one(args):
     # an order on (1, 0) must be matched against its own runner's book only
     book0 = {(1, 0): {"atb": levels, "atl": levels, "trd": [[2.0, 10]]}, (2, 0): {"atb": [[3.0, 5]], "atl": [[3.2, 5]]}, (1, 0.5): {"atb": [[3.5, 100]], "atl": [[1.2, 100]], "trd": [[2.0, 10]]}}
     spec = simx.MarketSpec(book0=book0, sels=((1, 0), (2, 0), (1, 0.5)))
-    ticks = [[200, ["Q"]]] + [[200, ev] for ev in trades]
+    # "arrival": the first trading update is the very update in which the placements take effect
+    arrival = len(args) > 4 and args[4] == "arrival"
+    ticks = ([] if arrival else [[200, ["Q"]]]) + [[200, ev] for ev in trades]
     acts = [["TX", [["P", dict(t)] for t in MENU], []]]
     h = Hooks()
     w = simx.SimWorld(
@@ -122,7 +124,7 @@ def _one(args):
     best_back = max(avail) if avail else None
     best_lay = min(avail) if avail else None
     sig = []
-    case = dict(levels=levels, bpe=bpe, full_match=full_match, trades=trades, menu="penny" if MENU is MENU_PENNY else ("avail" if avail_mode else "std"))
+    case = dict(levels=levels, bpe=bpe, full_match=full_match, trades=trades, menu="penny" if MENU is MENU_PENNY else ("avail" if avail_mode else ("arrival" if arrival else "std")))
     for t, o in zip(MENU, st.known):
         side, lim, size = t["side"], t["price"], t["size"]
         fok = t["tif"] == "FILL_OR_KILL"
@@ -272,6 +274,11 @@ def run(tier):
         for n in range(1, tlen + 1):
             for seq in itertools.product(TRADES, repeat=n):
                 jobs.append((lv, True, False, [list(e) for e in seq]))
+    # volume trades in the very update in which the orders arrive (a killed fill-or-kill order takes none of it)
+    for lv in rest_books:
+        for n in range(1, tlen + 1):
+            for seq in itertools.product(TRADES[:4], repeat=n):
+                jobs.append((lv, True, False, [list(e) for e in seq], "arrival"))
     # resting orders with simulation_available_prices: later books bring prices at / through / behind the limits
     for lv in ([], [[2.0, 1]]):
         for n in range(1, tlen + 1):
